@@ -315,8 +315,11 @@ where
             } else if implicit_rule.as_ref() == Some(astrulename) {
                 // Add the implicit rule: ~: "IMPLICIT_TOKEN_1" ~ | ... | "IMPLICIT_TOKEN_N" ~ | ;
                 let implicit_prods = &mut rules_prods[usize::from(rule_map[astrulename])];
-                // Add a production for each implicit token
-                for t in ast.implicit_tokens.as_ref().unwrap().keys() {
+                // Add a production for each implicit token. We iterate over the tokens in the
+                // order they were declared, not over the (randomly ordered) hash map, so that
+                // the productions are numbered identically on every run.
+                let implicit_tokens = ast.implicit_tokens.as_ref().unwrap();
+                for t in ast.tokens.iter().filter(|t| implicit_tokens.contains_key(*t)) {
                     implicit_prods.push(PIdx(prods.len().as_()));
                     prods.push(Some(vec![Symbol::Token(token_map[t]), Symbol::Rule(ridx)]));
                     prod_precs.push(Some(None));
